@@ -10,7 +10,7 @@ CONSTANTS Docs, Full
 H1 == <<"!">>
 H2 == <<"!", "!">>
 HA == <<"!", "a", "!">>
-HB == <<"!", "b", "!">>
+HB == <<"!", "b", "-", "c", "!">>           \* (a handle is made of word characters: letters, digits and "-")
 P1 == <<"t", "a", "g", ":", "x", ".", "o", "r", "g", ",", "2", "0", "0", "0", ":">>
 P2 == <<"!", "l", "o", "c", "-">>
 Handles == {H1, H2, HA, HB}
@@ -18,7 +18,7 @@ DirLists == {<<>>} \cup {<< <<h, p>> >> : h \in Handles, p \in {P1, P2}} \cup {<
 DirListsSmall == {<<>>} \cup {<< <<h, P2>> >> : h \in Handles}
 Spellings == { [form |-> "none"], [form |-> "nonspecific"], [form |-> "verbatim", v |-> <<"t", "a", "g", ":", "v", ".", "o", "r", "g", ",", "2", "0", "0", "0", ":", "t">>],
                [form |-> "secondary", s |-> <<"s", "t", "r">>], [form |-> "named", h |-> <<"a">>, s |-> <<"t">>],
-               [form |-> "named", h |-> <<"b">>, s |-> <<"x", "%", "2", "1", "y">>], [form |-> "primary", s |-> <<"l">>],
+               [form |-> "named", h |-> <<"b", "-", "c">>, s |-> <<"x", "%", "2", "1", "y">>], [form |-> "primary", s |-> <<"l">>],
                [form |-> "named", h |-> <<"a">>, s |-> <<"%", "2", "1">>],                                \* a suffix made of escapes only
                [form |-> "secondary", s |-> <<"%", "7", "3", "%", "7", "4", "%", "7", "2">>],
                [form |-> "verbatim", v |-> <<"!", "l", "o", "c">>],                                  \* a verbatim LOCAL tag: not resolved through "%TAG !"
